@@ -11,6 +11,40 @@ E3 = "bounded exhaustive enumeration of inputs/programs/configurations executed 
 
 # pid -> (technique, level text, level note, design ref)
 CHECKS = {
+    "C03": (
+        E3 + "; " + E2,
+        "E3: every combination of up to 3-4 proposals (priority ties, preferred power and bounds on/inside/outside every interval "
+        "edge, inverted and incompatible bounds) over 8 system-bounds shapes through the real Matryoshka: target inside the "
+        "inclusion bounds and zero or outside the exclusion zone. E2: BFS over propose/replace/expiry histories; in every state "
+        "the target equals the one a fresh instance computes from the live set in every insertion order.",
+        "Decided on the stated value menus and history depth; expiry observed via drop_old_proposals as the manager calls it.",
+        "DESIGN.md §3 C03",
+    ),
+    "C04": (
+        E3,
+        "Every conflict-free three-actor proposal set of the menu compared with an interval-arithmetic reference model "
+        "(closest admissible value to the lowest-priority preference inside system and higher-priority bounds minus the "
+        "exclusion zone); get_status/adjust_to_bounds vs adoption of the own preference for 13 values per higher-priority "
+        "configuration (also with the asker's own earlier bounds); empty proposal equivalent to none.",
+        "Reference model trusted; ambiguous readings (equidistant candidates, preference 0 with a one-sided usable range) accepted both ways.",
+        "DESIGN.md §3 C04",
+    ),
+    "C17": (
+        E3,
+        "Every bounds-distinct configuration of the C01 grid (shared inverters/batteries, 1-3 groups): the real "
+        "PowerBoundsCalculator output vs the real BatteryManager's OutOfBounds decisions for every power on/just inside/just "
+        "outside each advertised bound, adjust_power on and off; advertised inclusion = enforced; admitted power >= sum of group minimums.",
+        "Status tracker stubbed; decided on the stated grid of bound values.",
+        "DESIGN.md §3 C17",
+    ),
+    "C18": (
+        E3,
+        "Every combination of per-battery data (capacity incl. 0, SoC inside/outside limits, equal limits, each metric missing, "
+        "battery absent) for 1-3 batteries and every working subset through the real SoCCalculator/CapacityCalculator against the "
+        "documented formula, with monotonicity and capacity-scaling relations; NaN-to-missing conversion through the real metrics fetcher.",
+        "Decided on the stated grid; zero total usable capacity accepts any SoC in [0,100].",
+        "DESIGN.md §3 C18",
+    ),
     "C01": (
         E3,
         "Exhaustive enumeration of a threshold-derived grid (1-3 battery groups, k batteries behind m inverters, SoC "
